@@ -23,12 +23,13 @@ func init() {
 }
 
 func memWord(seed uint64, a uint64) uint16 {
-	h := (((a + 1) * (2*seed + 1) * 40503) / 128) % 65536
-	switch seed % 4 {
+	h0 := (a+1)*40503 + seed*25173
+	h := (h0 ^ (h0 >> 7)) & 65535
+	switch seed & 3 {
 	case 0:
-		return uint16((32+(h/256)%95)*256 + 32 + (h%256)%95)
+		return uint16((32+((h>>8)&63))*256 + 33 + (h & 63))
 	case 2:
-		switch h % 3 {
+		switch h & 3 {
 		case 0:
 			return 0
 		case 1:
@@ -292,7 +293,7 @@ func extractCorpus(r *rng) {
 func streamExtract(seed uint64, thorough bool) {
 	r := newRng(seed ^ 0xB05)
 	extractCorpus(r)
-	n := 20000
+	n := 15000
 	if thorough {
 		n = 200000
 	}
